@@ -61,6 +61,9 @@ FParallelToGrad == ~ready \/ GradSq(pt) = 0 \/ REq(RMul(DefF(pt).f_R, Q(pt.pZ)),
 CurlIsDeltaStar == ~ready \/ REq(CurlBzeta(pt), DeltaStarOverR(pt))
 B2IsSumOfSquares == ~ready \/ LET c == Code(pt) IN REq(c.B2, RAdd(RAdd(RMul(c.Bp_R, c.Bp_R), RMul(c.Bp_Z, c.Bp_Z)), RMul(c.Bzeta, c.Bzeta)))
 B2Positive == ~ready \/ LET b == Code(pt).B2[1] IN b >= 0 /\ (b = 0 <=> (pt.pR = 0 /\ pt.pZ = 0 /\ pt.F = 0))
+\* the closed form of curl(b/B) in calcCurvature is the curl of B/B^2
+CurlCodeIsDefinition == ~ready \/ Code(pt).B2[1] = 0 \/
+  LET c == CurlCode(pt) d == CurlDef(pt) IN REq(c.R, d.R) /\ REq(c.Z, d.Z) /\ REq(c.zeta, d.zeta)
 \* dispatch
 SameKindSameResult == call = NoCall \/ (call.a1 = call.a2 => result = call.a1)
 MixedMlaRefused == call = NoCall \/ ((call.a1 = "mla") # (call.a2 = "mla") => result = "error")
